@@ -259,20 +259,20 @@ Proof.
     apply pk_step_call in Hu. destruct Hu as [Hno [[Hn ->]|(id' & Ho & ->)]].
     + destruct Hc as (P1 & _). rewrite (P1 _ _ Hin Hk Hs) in Hn. discriminate Hn.
     + assert (id' = id) by (destruct Hc as (P1 & _); rewrite (P1 _ _ Hin Hk Hs) in Ho; congruence). subst id'.
-      unfold pk_inv; sf; cbn [pk_open pk_busy pk_over]. repeat split.
+      unfold pk_inv; sf; cbn [pk_open pk_busy pk_over]. (split; [|split]).
       * apply pk_clo_call; auto. exact (in_closure_false _ _ Hi).
       * apply pk_pp_call; assumption.
       * apply pk_sc_adel, Hsc.
   - (* call of another closure *)
     apply clo_find_in in Hf. destruct Hf as [Hin <-].
     apply pk_step_call in Hu. destruct Hu as [Hno [[Hn ->]|(id' & Ho & ->)]].
-    + unfold pk_inv. rewrite clos_enq. unfold clo_enqueue. destruct (clo_live s c); sf; repeat split; try assumption;
+    + unfold pk_inv. rewrite clos_enq. unfold clo_enqueue. destruct (clo_live s c); sf; (split; [|split]); try assumption;
         (apply pk_clo_set_irr; [exact I1|exact Hin|left; exact Hk|left; exact Hk|exact Hc]).
     + exfalso. destruct Hc as (_ & _ & P5). destruct (P5 _ _ Ho) as (c1 & H1 & K1 & S1 & Kd1).
       assert (c1 = c) by (eapply ckeys_inj; eassumption). subst c1. eapply Hk, Kd1.
   - (* call of a finished closure *)
     apply clo_find_in in Hf. destruct Hf as [Hin <-].
-    apply pk_step_call in Hu. destruct Hu as [Hno [[Hn ->]|(id' & Ho & ->)]]; [repeat split; assumption|].
+    apply pk_step_call in Hu. destruct Hu as [Hno [[Hn ->]|(id' & Ho & ->)]]; [(split; [|split]); assumption|].
     exfalso. destruct Hc as (_ & _ & P5). destruct (P5 _ _ Ho) as (c1 & H1 & K1 & S1 & Kd1).
     assert (c1 = c) by (eapply ckeys_inj; eassumption). subst c1. rewrite S1 in Hs. discriminate Hs.
   - (* delete ok *)
@@ -280,17 +280,17 @@ Proof.
     unfold pk_inv. rewrite clos_enq. cbn [pk_open pk_busy pk_over].
     assert (Epp : pp (set_clos (clo_enqueue (sess_delete s Incoming id) c) (clo_set (clos s) (c_k c) (CRun g))) = pp s)
       by (unfold clo_enqueue; destruct (clo_live _ c); reflexivity).
-    rewrite Epp. repeat split; [apply pk_clo_del; auto|apply pk_pp_del, Hp|exact Hsc].
+    rewrite Epp. (split; [|split]); [apply pk_clo_del; auto|apply pk_pp_del, Hp|exact Hsc].
   - (* delete failed *)
     apply clo_del_find_in in Hf. destruct Hf as (Hin & Hs & Hk). cbn [pk_step] in Hu. injection Hu as <-.
     unfold pk_inv; sf; cbn [pk_open pk_busy pk_over].
-    repeat split; [apply pk_clo_del; auto|apply pk_pp_del, Hp|exact Hsc].
-  - cbn [pk_step] in Hu. injection Hu as <-. unfold pk_inv; sf. repeat split; try assumption.
+    (split; [|split]); [apply pk_clo_del; auto|apply pk_pp_del, Hp|exact Hsc].
+  - cbn [pk_step] in Hu. injection Hu as <-. unfold pk_inv; sf. (split; [|split]); try assumption.
     apply pk_clo_set_irr; auto; right; [rewrite Hs|]; reflexivity.
-  - cbn [pk_step] in Hu. injection Hu as <-. unfold pk_inv. destruct (c_conn c =? conn_no s); sf; repeat split; try assumption;
+  - cbn [pk_step] in Hu. injection Hu as <-. unfold pk_inv. destruct (c_conn c =? conn_no s); sf; (split; [|split]); try assumption;
       (apply pk_clo_set_irr; auto; right; [rewrite Hs|]; reflexivity).
   - apply clo_find_in in Hf. destruct Hf as [Hin <-].
-    cbn [pk_step] in Hu. injection Hu as <-. unfold pk_inv; sf. repeat split; try assumption.
+    cbn [pk_step] in Hu. injection Hu as <-. unfold pk_inv; sf. (split; [|split]); try assumption.
     apply pk_clo_set_irr; auto; right; [rewrite Hs|]; reflexivity.
-  - cbn [pk_step] in Hu. injection Hu as <-. repeat split; assumption.
+  - cbn [pk_step] in Hu. injection Hu as <-. (split; [|split]); assumption.
 Qed.
